@@ -166,7 +166,15 @@ impl<'a> Evaluator<'a> {
                         SymbolData::Number(mut number) => {
                             // The source reads `!-x`, so negate first and then apply the logical not
                             if flags.contains(ExpressionFactorFlags::NEG) {
-                                number = -number;
+                                number = match number.checked_neg() {
+                                    Some(negated) => negated,
+                                    None => {
+                                        return self.error(
+                                            factor.span,
+                                            format!("the result of '-{}' does not fit in 64 bits", number),
+                                        )
+                                    }
+                                };
                             }
                             if flags.contains(ExpressionFactorFlags::NOT) {
                                 if number == 0 {
